@@ -19,7 +19,8 @@ META = {
     'technique': 'exhaustive guard-structure model of the registry tables (all 2^N configurations at once) bound to the code by compiling and introspecting enumerated configurations',
     'text': 'Model: position-wise guard equivalence of the name and pointer tables of the data source, filter and output registries (=> aligned in every configuration). '
             'Implementation: every name of the universe is resolved in every enumerated configuration of the real registry code (all filter and output subsets exhaustively; data sources: all/none/each single/each pair, '
-            'thread safety on and off) against recording stubs: exists iff enabled, and runs its own implementation; unknown and disabled names are unknown, including proper prefixes of enabled names.',
+            'thread safety on and off) against recording stubs: exists iff enabled, and runs its own implementation; unknown and disabled names are unknown, including proper prefixes of enabled names.'
+            " Also: the real shared library preloaded behind a decoy library that defines the registries' table symbols with rotated contents (a table the library exported would be interposed).",
     'note': 'If the extractor meets a preprocessor construct it does not know, the model verdict is withheld (exhaustive:false) and only the compiled configurations decide. Trusted: gcc preprocessor.',
 }
 
